@@ -18,6 +18,7 @@ package main
 
 import (
 	"fmt"
+	"math"
 	"os"
 	"sort"
 	"strings"
@@ -281,7 +282,7 @@ func c10monitorPart(c *Ctx) {
 		sample(6, []int{0, 1, 2, 3, 4}, 1, "assign6of5")
 	}
 	// random longer histories with interleaved creation, priorities incl. negative and large
-	wide := []int{-2, 0, 1, 2, 3, 4, 5, 6, 7, 9, 100}
+	wide := append([]int{-2, 0, 1, 2, 3, 4, 5, 6, 7, 9, 100}, c10boundary...)
 	for i := 0; i < c.Pick(600, 12000) && !c.Enough(); i++ {
 		n := 3 + c.Rng.Intn(10)
 		c10monOne(c, c10randomHistory(c, n, wide, 6+c.Rng.Intn(30)), "random")
@@ -558,9 +559,12 @@ func c10scenarioOne(c *Ctx, sc c10Scenario, family string) {
 			c.Violate("event-not-processed", fmt.Sprintf("event e%d was queued but none of its rules ran", task), sc)
 		}
 	}
-	id := c.NewID()
-	c.AddCase(id, c10raw(1, id, trace), sc, "q:"+key, npops > 1)
-	for ci := 0; ci < sc.Ncasc; ci++ {
+	rulesOnly := strings.HasSuffix(family, "-rules-only")
+	if !rulesOnly {
+		id := c.NewID()
+		c.AddCase(id, c10raw(1, id, trace), sc, "q:"+key, npops > 1)
+	}
+	for ci := 0; ci < sc.Ncasc && !rulesOnly; ci++ {
 		if len(ops[ci]) == 0 {
 			continue
 		}
@@ -595,6 +599,10 @@ func c10scenarioOne(c *Ctx, sc c10Scenario, family string) {
 			sc, fmt.Sprintf("r%d:%s", task, key), true)
 	}
 }
+
+// boundary values of Go's int: rule priorities are plain ints compared with "<" (any
+// arithmetic on them can overflow), monitor priorities likewise; the queue clamps negatives.
+var c10boundary = []int{math.MinInt64, math.MinInt64 + 1, -5000000000000000000, -2, -1, 0, 1, 2, 5000000000000000000, math.MaxInt64 - 1, math.MaxInt64}
 
 func c10scenarioPart(c *Ctx) {
 	// corpus: fixed tricky scenarios first
@@ -650,6 +658,42 @@ func c10scenarioPart(c *Ctx) {
 		}
 	}
 	c.Extra["systematic_rule_scenarios"] = nsys
+	// boundary priorities: every ordered pair of the pool for a 2-rule event, the failing rule at
+	// each rank or none, both settings of the flag; each rule adds a child event whose monitor
+	// priority is from the pool as well (queue trace and monitor history emitted for a subset)
+	B := c10boundary
+	nb := 0
+	for i := range B {
+		for j := range B {
+			for f := -1; f < 2; f++ {
+				for _, flag := range []bool{true, false} {
+					if c.Enough() {
+						return
+					}
+					rules := []c10Rule{
+						{Prio: B[i], Fails: f == 0, Adds: []c10Add{{1, B[(i+j)%len(B)]}}},
+						{Prio: B[j], Fails: f == 1, Adds: []c10Add{{1, B[(i*3+j+1)%len(B)]}}},
+					}
+					fam := "boundary-pairs-rules-only"
+					if f == -1 && flag {
+						fam = "boundary-pairs"
+					}
+					nb++
+					c10scenarioOne(c, c10Scenario{Flag: flag, Kinds: [][]c10Rule{rules, leaf}, Ncasc: 1, Initial: []c10Init{{0, 0, B[(i+2*j)%len(B)]}}}, fam)
+				}
+			}
+		}
+	}
+	for n := 0; n < c.Pick(150, 3000) && !c.Enough(); n++ {
+		rules := make([]c10Rule, 3)
+		for j := range rules {
+			rules[j] = c10Rule{Prio: B[c.Rng.Intn(len(B))], Fails: c.Rng.Intn(3) == 0, Adds: []c10Add{{1, B[c.Rng.Intn(len(B))]}}}
+		}
+		nb++
+		c10scenarioOne(c, c10Scenario{Flag: c.Rng.Intn(2) == 0, Kinds: [][]c10Rule{rules, leaf}, Ncasc: 1 + c.Rng.Intn(2),
+			Initial: []c10Init{{0, 0, B[c.Rng.Intn(len(B))]}, {0, 0, B[c.Rng.Intn(len(B))]}}}, "boundary-triples")
+	}
+	c.Extra["boundary_priority_scenarios"] = nb
 	// random scenarios: 1..3 cascades, 3 levels of kinds, priorities -1..4
 	for i := 0; i < c.Pick(250, 5000) && !c.Enough(); i++ {
 		nk := 2 + c.Rng.Intn(2)
@@ -687,7 +731,7 @@ func c10scenarioPart(c *Ctx) {
 }
 
 func runC10(c *Ctx) error {
-	c.Rule = "(a) monitor API histories on one cascade: corpus (F15, F16 witnesses), every priority assignment over {0..3} for <=2 children x every protocol-respecting order of activate/skip/finish incl. the root monitor, every assignment for 3 and 4 children x sampled orders (thorough: also {0..5} for 5 and {0..4} for 6 children), random longer histories with interleaved creation and priorities from {-2..100}; HighestPriority() compared after every call.  (b,c) processor scenarios with one worker held by a gate event while the initial events of 1..3 cascades are queued: systematic = one event with 1..3 (thorough 4) rules over priorities {0..3}, the failing rule at every rank / none / two, both settings of fail-on-first-error, every rule adding a child event; random = up to 3 levels of event kinds, 1..4 rules each, skipped (non-triggering) child events, priorities -1..4; observed: queue trace (push/pop with the cascade chosen), per-cascade monitor history with HighestPriority() sampled inside every action, per event the action start sequence and the error report.  non-trivial = history with a finish or skip / trace with more than one pop / event with several rules or a failing one"
+	c.Rule = "(a) monitor API histories on one cascade: corpus (F15, F16 witnesses), every priority assignment over {0..3} for <=2 children x every protocol-respecting order of activate/skip/finish incl. the root monitor, every assignment for 3 and 4 children x sampled orders (thorough: also {0..5} for 5 and {0..4} for 6 children), random longer histories with interleaved creation and priorities from {-2..100} and the boundary pool {MinInt64, MinInt64+1, -5e18, -2, -1, 0, 1, 2, 5e18, MaxInt64-1, MaxInt64}; HighestPriority() compared after every call.  (b,c) processor scenarios with one worker held by a gate event while the initial events of 1..3 cascades are queued: systematic = one event with 1..3 (thorough 4) rules over priorities {0..3}, the failing rule at every rank / none / two, both settings of fail-on-first-error, every rule adding a child event; boundary = every ordered pair of the boundary pool as the priorities of a 2-rule event (failing rule at each rank / none, both flag settings) and random triples, child monitor priorities from the pool; random = up to 3 levels of event kinds, 1..4 rules each, skipped (non-triggering) child events, priorities -1..4; observed: queue trace (push/pop with the cascade chosen), per-cascade monitor history with HighestPriority() sampled inside every action, per event the action start sequence and the error report.  non-trivial = history with a finish or skip / trace with more than one pop / event with several rules or a failing one"
 	c.BeginCases("From Coq Require Import List ZArith.\nFrom Ecal Require Import Run.RunC10.\nImport ListNotations.\nOpen Scope Z_scope.", "raw", 1000)
 	engine.UnitTestResetIDs()
 	c10proc = engine.NewProcessor(1)
